@@ -28,7 +28,7 @@ ASSUMPTIONS = ['the oracle is a freshly constructed real monitor fed only the po
 REAL = common.REAL_ALL
 STUBS = common.STUBS_ALL
 PROBES = ['reset_before_first_update', 'double_reset', 'second_reset_after_more_updates', 'with_subspecs', 'pastified', 'dense_time', 'counter_nonzero_before_reset',
-          'reset_matters']
+          'reset_matters', 'poisoned_update_did_not_raise', 'only_failed_updates_before_reset']
 INTERLEAVING_MEASURE = 'distinct (time domain, reset position, pre-history length, double-reset) tuples'
 
 
@@ -80,7 +80,10 @@ def gen(rng, tier):
         post = [[t2[i], dict((v, data[v][m + i]) for v in vars_)] for i in range(npost)]
     # a middle episode: pre, reset, mid, reset, post (state must not leak across two resets either)
     mid_len = rng.randint(1, 4) if rng.random() < 0.5 else 0
-    return {'dense': dense, 'cls': cls, 'vars': vars_, 'ast': ast, 'modular': modular, 'pastify': pastify, 'pre': pre,
+    # a poisoned update in the pre-history: one sensor delivers None, update() raises half-way, the application catches the
+    # exception (and later resets the monitor)
+    poison = {'at': rng.choice([0, 0, rng.randrange(m)]), 'var': rng.choice(sg.vars_of(ast))} if m and rng.random() < 0.3 else None
+    return {'poison': poison, 'dense': dense, 'cls': cls, 'vars': vars_, 'ast': ast, 'modular': modular, 'pastify': pastify, 'pre': pre,
             'post': post, 'double_at': rng.randint(0, m), 'text': None, 'spell_seed': rng.randrange(1 << 30), 'mid_len': mid_len}
 
 
@@ -111,6 +114,35 @@ def step(mon, sc, upd):
         return M.ct_update(mon, upd, sc['vars'])
     t, vals = upd
     return M.dt_update(mon, t, [(v, vals[v]) for v in sc['vars']])
+
+
+def poisoned(sc, upd):
+    v = sc['poison']['var']
+    if sc['dense']:
+        return dict((k, ([[smp[0], None] for smp in upd[k]] if k == v else upd[k])) for k in upd)
+    t, vals = upd
+    return [t, dict(vals, **{v: None})]
+
+
+def feed_pre(mon, sc, pre, r):
+    """feeds a pre-history; the poisoned update (if any) is expected to raise and is swallowed like an application would"""
+    po = sc.get('poison')
+    for i, u in enumerate(pre):
+        if po and i == po['at']:
+            try:
+                step(mon, sc, poisoned(sc, u))
+                r.probes['poisoned_update_did_not_raise'] += 1
+            except M.ApiCrash:
+                r.faults['update_raised_midway'] += 1
+            continue
+        if po and i > po['at']:
+            # the None sample may sit in the monitor's buffers: later updates may raise as well until the reset
+            try:
+                step(mon, sc, u)
+            except M.ApiCrash:
+                r.faults['update_raised_after_poison'] += 1
+            continue
+        step(mon, sc, u)
 
 
 def same(a, b, dense):
@@ -177,8 +209,7 @@ def run(sc):
         r.faults['reset'] += times
         try:
             mon = M.build(desc)
-            for u in pre[:p]:
-                step(mon, sc, u)
+            feed_pre(mon, sc, pre[:p], r)
             before = mon.sampling_violation_counter
             d0 = M.state_digest(mon)
             for _ in range(times):
@@ -186,6 +217,8 @@ def run(sc):
             r.api_calls += 2 + p + times
             if before:
                 r.probes['counter_nonzero_before_reset'] += 1
+            if sc.get('poison') and p == 1 and sc['poison']['at'] == 0:
+                r.probes['only_failed_updates_before_reset'] += 1
             d1 = M.state_digest(mon)
             if d1:
                 r.states.add(d1)
@@ -257,6 +290,10 @@ def run(sc):
 
 
 def shrinks(sc):
+    if sc.get('poison'):
+        c = copy.deepcopy(sc)
+        c['poison'] = None
+        yield c
     if sc.get('mid_len'):
         for ml in (0, sc['mid_len'] - 1):
             c = copy.deepcopy(sc)
